@@ -24,7 +24,7 @@ type machineCase struct {
 }
 
 const sentinelID = "~"
-const stepTimeout = 5 * time.Second
+const stepTimeout = 3 * time.Second
 
 type machineObs struct {
 	Outs       []string // per "e" move: the change taken, "none" (not attempted: model says not enabled), "timeout"
@@ -307,7 +307,7 @@ func allPatterns(seq []string, maxEmit int, yield func([]string)) {
 
 func runMachine(f lib.Flags, res *lib.Result, drv *lib.Driver) {
 	tie := res.Tie("mergeExcess-machine", "K1",
-		"the REAL mergeCollectionExcess goroutine driven through its channels one operation at a time (offer one input / take one output; a take is attempted when the model says it is enabled, the final state is read back with a sentinel input) vs the model's recv/emit machine: ALL well-formed event sequences of length <= L (quick 4, thorough 5) over 2 ids x 2 values from each of the 4 start views with ids absent/present x ALL patterns of 0..2 takes after each input, plus random sequences of length <= 40 with random patterns (including takes while nothing is pending and seed-flagged/REPLACE inputs); compared: every taken change and the pending queue in order, all fields; non-trivial = at least two inputs; distinct = (start view, moves)")
+		"the REAL mergeCollectionExcess goroutine driven through its channels one operation at a time (offer one input / take one output; a take is attempted when the model says it is enabled, the final state is read back with a sentinel input) vs the model's recv/emit machine: ALL well-formed event sequences of length <= L (quick 4, thorough 5) over 2 ids x 2 values from each of the 4 start views with ids absent/present x ALL patterns of 0..2 takes after each input (0..1 for the longest sequences: thorough length 5, quick length 4 from two of the four start views), plus random sequences of length <= 40 with random patterns (including takes while nothing is pending and seed-flagged/REPLACE inputs); compared: every taken change and the pending queue in order, all fields; non-trivial = at least two inputs; distinct = (start view, moves)")
 	mon := res.Monitor("mergeExcess-view", "on the same runs, independent of the model: every offered input is accepted (never blocks, latency recorded); delivered changes (emitted then pending) are each well formed at the subscriber's view (old values chain per id); they fold to the view of everything received; the last delivered change of an id carries its most recent value; at most one pending change per id; the goroutine terminates on close; non-trivial = something was merged away")
 	starts := []map[string]string{{}, {"a": "x"}, {"b": "y"}, {"a": "x", "b": "x"}}
 	var maxRecv time.Duration
@@ -385,11 +385,11 @@ func runMachine(f lib.Flags, res *lib.Result, drv *lib.Driver) {
 	}
 	exhaustiveN := 0
 	L := f.N(4, 5)
-	for _, st := range starts {
+	for si, st := range starts {
 		for n := 1; n <= L; n++ {
 			maxEmit := 2
-			if n >= 5 {
-				maxEmit = 1
+			if n >= 5 || (n == 4 && si >= 2 && !f.Thorough()) {
+				maxEmit = 1 // quick: the longest sequences get 0..2 takes from two of the start views, 0..1 from the others
 			}
 			allSeqs(copyView(st), n, 1, nil, func(seq []string) {
 				allPatterns(seq, maxEmit, func(moves []string) {
